@@ -13,8 +13,9 @@ use crate::storage::lua_engine::{get_lua_engine, LuaCommandContext};
 
 /// Process KEYS and ARGV from RESP frames
 fn process_keys_and_args(parts: &[RespFrame], start_idx: usize, num_keys: usize) -> std::result::Result<(Vec<Vec<u8>>, Vec<Vec<u8>>), String> {
-    if parts.len() < start_idx + num_keys {
-        return Err("wrong number of arguments".to_string());
+    // (written so that an absurd key count cannot overflow)
+    if parts.len() < start_idx || num_keys > parts.len() - start_idx {
+        return Err("Number of keys can't be greater than number of args".to_string());
     }
     
     let mut keys = Vec::with_capacity(num_keys);
